@@ -382,6 +382,9 @@ def enumerate_cases(base_seed, tier):
         for n in ((11, 21) if tier == 'thorough' else (11,)):
             out.append({'property': PID, 'seed': core.h64('C09-book', cls, n), 'swarm': {'book': cls, 'transports': ['doc']},
                         'ops': [{'op': 'BOOK', 'chapters': n}]})
+    # front and back matter of a book: their chapters are labelled like any other
+    out.append({'property': PID, 'seed': core.h64('C09-bookmatter'), 'swarm': {'book': 'book', 'transports': ['doc']},
+                'ops': [{'op': 'BOOKMATTER'}]})
     return out
 
 
@@ -420,6 +423,28 @@ def execute_book(record, res):
     from plasTeX.TeX import TeX
     viol, log = [], []
     for op in record['ops']:
+        if op.get('op') == 'BOOKMATTER':
+            titles = {'chP': 'Preface', 'ch1': 'One', 'se1': 'Sone', 'ch2': 'Two', 'chB': 'After', 'seB': 'Sback'}
+            refs = ' '.join('\\ref{%s}' % k for k in sorted(titles))
+            src = ('\\documentclass{book}\\begin{document}\nFwd %s.\n\n\\frontmatter\\chapter{Preface}\\label{chP} text\n\\mainmatter\n'
+                   '\\chapter{One}\\label{ch1}\\section{Sone}\\label{se1}\n\\chapter{Two}\\label{ch2}\n'
+                   '\\backmatter\\chapter{After}\\label{chB} text\\section{Sback}\\label{seB}\nBack %s.\n\\end{document}' % (refs, refs))
+            tex = TeX()
+            tex.input(src)
+            doc = tex.parse()
+            for r in doc.getElementsByTagName('ref'):
+                lab = _str(r.attributes['label'])
+                t = r.idref.get('label')
+                tid = _str(getattr(t, 'id', None))
+                try:
+                    ttl = _str(t.attributes['title'].textContent)
+                except Exception:
+                    ttl = None
+                log.append([lab, tid, ttl])
+                if tid != lab or ttl != titles[lab]:
+                    viol.append({'sig': 'C09|target|wrong-object|book', 'detail': {'label': lab, 'target_id': tid, 'target_title': ttl, 'expected_title': titles[lab]}})
+                    break
+            continue
         if op.get('op') != 'BOOK':
             continue
         src, want = _book_source(record['swarm']['book'], op['chapters'])
